@@ -11,3 +11,4 @@ import EdxmlProps.C09
 import EdxmlProps.C12
 import EdxmlProps.C11
 import EdxmlProps.C03
+import EdxmlProps.C13
